@@ -65,35 +65,58 @@ def check(run):
 
 def _acc_roles(fn):
     """The three accumulators of the parser by what consumes them after the scan: the one
-    converted to i32 is the month total, the one fed to Duration::try_seconds the second total,
-    the one fed to Duration::nanoseconds the nanosecond total."""
-    roles = {}
+    converted to i32 is the month total, the one whose converted value reaches
+    Duration::try_seconds the second total, the one whose converted value is the argument of
+    Duration::nanoseconds the nanosecond total (followed through helper lets)."""
     lets = [st for blk in walk(fn.hir) if blk.get('k') == 'Block' for st in blk.get('stmts', [])
             if st['k'] == 'Let' and 'init' in st]
-    res_role = {}
+    # accumulators: `let mut x: i128 = 0` that some try_from consumes
+    srcs = {}     # derived local -> set of accumulator locals it comes from
+    accs = {}
     for st in lets:
-        calls = [x for x in walk(st['init']) if x.get('k') == 'Call' and
-                 callee_is(x, 'TryFrom::try_from') and len(x['ch']) == 2 and
-                 peel(x['ch'][1]).get('k') == 'Path' and peel(x['ch'][1]).get('res') == 'local']
-        if len(calls) != 1:
-            continue
-        arg = peel(calls[0]['ch'][1])
-        txt = src(st['init'])
-        tgt = (calls[0].get('targs') or [''])[0]
-        if 'try_seconds' in txt:
-            roles[arg['local']] = 'SECS'
-        elif 'i32' in tgt or txt.startswith('i32::try_from') or 'i32::try_from' in txt:
-            roles[arg['local']] = 'MONTHS'
-        else:
-            roles[arg['local']] = 'NANOS?'
+        for x in walk(st['init']):
+            if x.get('k') == 'Call' and callee_is(x, 'TryFrom::try_from') and len(x['ch']) == 2:
+                a_ = peel(x['ch'][1])
+                if a_.get('k') == 'Path' and a_.get('res') == 'local':
+                    accs.setdefault(a_['local'], {'i32': False})
+                    tgt = ' '.join(x.get('targs') or []) + ' ' + src(x['ch'][0])
+                    if 'i32' in tgt:
+                        accs[a_['local']]['i32'] = True
+    changed = True
+    for a_ in accs:
+        srcs[a_] = {a_}
+    while changed:
+        changed = False
+        for st in lets:
+            reads = {y['local'] for y in walk(st['init']) if y.get('k') == 'Path' and y.get('res') == 'local'}
+            from_ = set()
+            for r in reads:
+                from_ |= srcs.get(r, set())
             for b_ in _pat_binds(st['pat']):
-                res_role[b_['local']] = arg['local']
-    # the i64 conversion that is not the second total must reach Duration::nanoseconds
+                if from_ - srcs.get(b_['local'], set()):
+                    srcs[b_['local']] = srcs.get(b_['local'], set()) | from_
+                    changed = True
+    roles = {}
+    for a_, info in accs.items():
+        if info['i32']:
+            roles[a_] = 'MONTHS'
     for x in walk(fn.hir):
+        # Duration::nanoseconds(arg)
         if x.get('k') == 'Call' and src(x['ch'][0]).endswith('nanoseconds') and len(x['ch']) == 2:
-            a_ = peel(x['ch'][1])
-            if a_.get('k') == 'Path' and a_.get('local') in res_role:
-                roles[res_role[a_['local']]] = 'NANOS'
+            reads = {y['local'] for y in walk(x['ch'][1]) if y.get('k') == 'Path' and y.get('res') == 'local'}
+            from_ = set().union(*[srcs.get(r, set()) for r in reads]) if reads else set()
+            if len(from_) == 1:
+                roles[list(from_)[0]] = 'NANOS'
+        # Duration::try_seconds as a call or as the function handed to and_then / map
+        is_ts = (x.get('k') == 'Path' and strip_generics(x.get('def', '')).endswith('try_seconds'))
+        if is_ts:
+            # the enclosing let: everything it reads comes from the second total
+            for st in lets:
+                if any(y is x for y in walk(st['init'])):
+                    reads = {y['local'] for y in walk(st['init']) if y.get('k') == 'Path' and y.get('res') == 'local'}
+                    from_ = set().union(*[srcs.get(r, set()) for r in reads]) if reads else set()
+                    if len(from_) == 1:
+                        roles[list(from_)[0]] = 'SECS'
     return roles
 
 
